@@ -112,12 +112,15 @@ def detect_all(extra):
       --reduced N      first try with --runs N (the first N seeds of the tier: a detection there is a detection of the
                        tier); only what that misses is run with the full budget
       --resume LOG     keep the entries of an earlier, interrupted run (its JSON lines) that were run at the full budget
+      --only ID,ID     run these seeded changes only and merge their entries into selftest_results/seeded.json
     Every change is applied to a scratch copy of /repo/src (AHBICHT_SRC), never to /repo itself.
     """
     extra = list(extra)
     reduced = pop_option(extra, "--reduced")
     resume = pop_option(extra, "--resume")
     resume_props = (pop_option(extra, "--resume-props") or "C10,C11,C12,C13,C15,C16").split(",")
+    only = pop_option(extra, "--only")
+    only = only.split(",") if only else None
     earlier = {}
     if resume:
         for line in open(resume, encoding="utf-8"):
@@ -131,6 +134,8 @@ def detect_all(extra):
     for seed_dir in sorted(glob.glob("/verif/seeded/*/")):
         meta = json.load(open(os.path.join(seed_dir, "meta.json"), encoding="utf-8"))
         prop = meta["property"][:3]
+        if only is not None and meta["id"] not in only:
+            continue
         if (meta.get("detection") or {}).get("tier") == "not-claimed":
             results.append({"id": meta["id"], "property": prop, "status": "not-claimed (outside the statement)"})
             print(json.dumps(results[-1]), flush=True)
@@ -180,8 +185,14 @@ def detect_all(extra):
         print(json.dumps(entry), flush=True)
         results.append(entry)
     os.makedirs("/verif/selftest_results", exist_ok=True)
+    stored = results
+    if only is not None and os.path.exists("/verif/selftest_results/seeded.json"):
+        ran = {r["id"] for r in results}
+        stored = [r for r in json.load(open("/verif/selftest_results/seeded.json", encoding="utf-8"))
+                  if r["id"] not in ran] + results
+        stored.sort(key=lambda r: r["id"])
     with open("/verif/selftest_results/seeded.json", "w", encoding="utf-8") as stream:
-        json.dump(results, stream, indent=1)
+        json.dump(stored, stream, indent=1)
     missed = [r for r in results if r["status"] not in ("detected", "thorough-tier-only (not run)",
                                                         "not-claimed (outside the statement)")]
     print(f"SEEDED: {len(results) - len(missed)}/{len(results)} detected or thorough-only")
